@@ -58,8 +58,18 @@ func mintCA(cn string, serial int64) (*x509.Certificate, crypto.Signer, error) {
 }
 
 func mintLeaf(ca *x509.Certificate, caKey crypto.Signer, key crypto.Signer, cn string, dns []string, serial int64, nb, na time.Time) (tls.Certificate, *x509.Certificate, error) {
+	var ips []net.IP
+	var names []string
+	for _, d := range dns { // names that parse as IP addresses become iPAddress SANs
+		if ip := net.ParseIP(d); ip != nil {
+			ips = append(ips, ip)
+		} else {
+			names = append(names, d)
+		}
+	}
+	dns = names
 	tmpl := &x509.Certificate{
-		SerialNumber: big.NewInt(serial), Subject: pkix.Name{CommonName: cn}, DNSNames: dns,
+		SerialNumber: big.NewInt(serial), Subject: pkix.Name{CommonName: cn}, DNSNames: dns, IPAddresses: ips,
 		NotBefore: nb, NotAfter: na,
 		KeyUsage:    x509.KeyUsageDigitalSignature | x509.KeyUsageKeyEncipherment,
 		ExtKeyUsage: []x509.ExtKeyUsage{x509.ExtKeyUsageServerAuth, x509.ExtKeyUsageClientAuth},
@@ -119,6 +129,8 @@ func BuildCertPool() (*CertPool, error) {
 		{"cli-expired", "p256", "client.verif.test", []string{"client.verif.test"}, false, time.Date(1990, 1, 1, 0, 0, 0, 0, time.UTC), time.Date(1995, 1, 1, 0, 0, 0, 0, time.UTC)},
 		// valid when a run starts (the bubble clock starts at 2000-01-01 00:00:00), expired ten virtual minutes later
 		{"srv-short", "p256", ServerName, []string{ServerName}, false, good0, time.Date(2000, 1, 1, 0, 10, 0, 0, time.UTC)},
+		// a certificate for the server's IP address (iPAddress SAN), and nothing else
+		{"srv-ip", "p256", "10.0.0.2", []string{"10.0.0.2"}, false, good0, good1},
 		{"cli-short", "p256", "client.verif.test", []string{"client.verif.test"}, false, good0, time.Date(2000, 1, 1, 0, 10, 0, 0, time.UTC)},
 	}
 	for i, sp := range specs {
